@@ -709,6 +709,21 @@ func (c *Conn) WriteMessage(messageType MessageType, data []byte) error {
 		}
 	}
 
+	// With a bounded send queue either the whole message fits or nothing of
+	// it is queued: a message refused at its second or third fragment would
+	// leave an unfinished fragmented message on the wire.
+	if c.sendQueue != nil && c.sendQueueSize > 0 {
+		frames := 1
+		max := c.Engine.MaxWebsocketFramePayloadSize
+		isControl := messageType == PingMessage || messageType == PongMessage || messageType == CloseMessage
+		if max > 0 && len(data) > max && !isControl {
+			frames = (len(data) + max - 1) / max
+		}
+		if len(c.sendQueue)+frames > int(c.sendQueueSize) {
+			return ErrMessageSendQuqueIsFull
+		}
+	}
+
 	if len(data) > 0 {
 		sendOpcode := true
 		sendCompress := compress
